@@ -18,7 +18,7 @@ static const uint32_t NORETRY = 1u << 31; // flag in Op::mapfail: a failed reque
 static const int NBULK = 6144; // extra slots used by the bulk op (fills whole slabs)
 
 static int P_maps, P_unmaps, P_slab_first, P_slab_additional, P_large, P_realloc_inplace, P_realloc_moved, P_realloc_map, P_xfree, P_handover, P_take_fail, P_contended_construct, P_remote_free_into_head,
-	P_relink_full, P_mapfail_injected, P_mapfail_while_other_holds, P_skipped, P_poison_redundant, P_unpoison_redundant, P_churn_iters, P_arena_exhausted, P_lock_contention, P_recovered, P_pages_sampled, P_unaligned_slack, P_bulk_blocks, P_slab_filled, P_long_churn, P_granule_runs, P_burst_fail, P_multi_pages_checked, P_reuse_checked, P_huge_maps, P_huge_blocks, P_huge_realloc_grow, P_huge_realloc_clamped;
+	P_relink_full, P_mapfail_injected, P_mapfail_while_other_holds, P_skipped, P_poison_redundant, P_unpoison_redundant, P_churn_iters, P_arena_exhausted, P_lock_contention, P_recovered, P_pages_sampled, P_unaligned_slack, P_bulk_blocks, P_slab_filled, P_long_churn, P_granule_runs, P_burst_fail, P_multi_pages_checked, P_reuse_checked, P_huge_maps, P_huge_blocks, P_huge_realloc_grow, P_huge_realloc_clamped, P_huge_lazy;
 
 struct Region { uint64_t base, len; int kind; /*0 slab,1 large*/ int64_t pages; int by_task, by_op; uint64_t cls; bool counted; int64_t live = 0; int last_free_task = 0; uint64_t last_free_step = 0; };
 struct Block { char *ptr = nullptr; size_t req = 0, reported = 0; uint64_t pat = 0; int owner = 0; int alloc_task = 0; bool live = false, offered = false, inflight = false, busy = false; VC chan; };
@@ -28,8 +28,9 @@ static SlabEngine *G;
 
 // Requests of 2^31 bytes and more ("huge"): C02/C03 quantify over all sizes, and 32-bit truncation of a length is the
 // realistic mistake there. Such mappings are served from a 40 GiB tail of reserved (PROT_NONE, never committed)
-// address space directly behind the arena, so that offsets stay linear; only the pages the pool's frame header and the
-// owner's fill windows touch are made accessible. Accesses there are outside the race detector's shadow.
+// address space directly behind the arena, so that offsets stay linear; the head of a region and the owner's fill windows
+// are made accessible eagerly, any other page of a mapped region on first touch (on_fault). Accesses there are outside
+// the race detector's shadow.
 static const uint64_t HUGE_MIN = 1ull << 30, TAIL_SIZE = 40ull << 30;
 static inline bool in_tail(const void *p) { uint64_t o = off(p); return o >= arena_size && o < arena_size + TAIL_SIZE; }
 
@@ -72,7 +73,7 @@ struct SlabEngine : Engine {
 		P_mapfail_while_other_holds = probe_id("map_failure_while_other_task_holds_a_pool_lock"); P_skipped = probe_id("ops_skipped_precondition"); P_poison_redundant = probe_id("kasan_strict:poison_of_poisoned_byte");
 		P_unpoison_redundant = probe_id("kasan_strict:unpoison_of_unpoisoned_byte"); P_churn_iters = probe_id("churn_iterations"); P_arena_exhausted = probe_id("arena_exhausted"); P_lock_contention = probe_id("alloc_or_free_overlapping_another_task's");
 		P_recovered = probe_id("retry_after_map_failure_succeeded"); P_pages_sampled = probe_id("used_pages_sampled"); P_unaligned_slack = probe_id("unaligned_map_nonzero_residue"); P_bulk_blocks = probe_id("bulk_blocks_allocated"); P_slab_filled = probe_id("slab_filled_completely(second_slab_of_class_mapped_in_bulk)"); P_long_churn = probe_id("long_churn_over_65536_allocations"); P_granule_runs = probe_id("runs_with_8_byte_granule_poison_shadow"); P_burst_fail = probe_id("map_failure_inside_a_burst_of_consecutive_failures"); P_multi_pages_checked = probe_id("used_pages_checked_against_measured_slab_sizes_at_end"); P_reuse_checked = probe_id("end_of_run_reuse_test(all_slab_capacity_refilled_without_map)");
-		P_huge_maps = probe_id("huge:map_of_1GiB_or_more(reserved_address_space)"); P_huge_blocks = probe_id("huge:block_of_2^31_bytes_or_more_live"); P_huge_realloc_grow = probe_id("huge:realloc_grew_a_block_to_2^31_bytes_or_more"); P_huge_realloc_clamped = probe_id("huge:realloc_of_a_huge_block_clamped_to_64_bytes");
+		P_huge_maps = probe_id("huge:map_of_1GiB_or_more(reserved_address_space)"); P_huge_blocks = probe_id("huge:block_of_2^31_bytes_or_more_live"); P_huge_realloc_grow = probe_id("huge:realloc_grew_a_block_to_2^31_bytes_or_more"); P_huge_realloc_clamped = probe_id("huge:realloc_of_a_huge_block_clamped_to_64_bytes"); P_huge_lazy = probe_id("huge:page_committed_on_first_touch_by_the_pool");
 	}
 	const char *name() override { return "simslab"; }
 	const char *op_name(int k) override { return k >= 0 && k < OP_N ? op_names[k] : "?"; }
@@ -280,6 +281,20 @@ struct SlabEngine : Engine {
 		uintptr_t a = (uintptr_t)p & ~(uintptr_t)4095, e = ((uintptr_t)p + n + 4095) & ~(uintptr_t)4095;
 		if (mprotect((void *)a, e - a, PROT_READ | PROT_WRITE)) { perror("mprotect tail"); exit(3); }
 		tail_dirty = true;
+	}
+
+	// The pool may legitimately touch any byte of a region it has mapped (a footer, a guard word, zeroing): a fault inside a
+	// currently mapped tail region commits that page (fresh zero page, deterministic); anywhere else in the tail it is a
+	// stray access and stays a crash. More than 32 MiB per run of such pages ends the run without a verdict.
+	int tail_faults = 0;
+	int on_fault(void *addr) override {
+		if (!tail_ok || !in_tail(addr) || calibrating) return 0;
+		if (!find_region(off(addr))) return 0;
+		if (++tail_faults > 8192) return 2;
+		uintptr_t a = (uintptr_t)addr & ~(uintptr_t)4095;
+		if (mprotect((void *)a, 4096, PROT_READ | PROT_WRITE)) return 0;
+		tail_dirty = true; probe(P_huge_lazy);
+		return 1;
 	}
 
 	// ------------------------------------------------------------ policy
@@ -511,7 +526,7 @@ struct SlabEngine : Engine {
 			}
 			tail_ok = tail_state == 1;
 			if (tail_ok && tail_dirty) { mmap(arena + arena_size, TAIL_SIZE, PROT_NONE, MAP_PRIVATE | MAP_ANONYMOUS | MAP_NORESERVE | MAP_FIXED, -1, 0); tail_dirty = false; }
-			tail_top = arena_size + (1 << 20); tail_unpoisoned.clear();
+			tail_top = arena_size + (1 << 20); tail_unpoisoned.clear(); tail_faults = 0;
 		}
 		regions.clear(); unmapped_hist.clear(); live_by_addr.clear(); map_sites.clear();
 		for (auto &b : blk) b = Block();
